@@ -10,6 +10,7 @@ pub mod c03;
 pub mod c04;
 pub mod c05;
 pub mod c06;
+pub mod c06id;
 pub mod c07;
 pub mod c08;
 pub mod c09;
@@ -34,6 +35,7 @@ pub fn run(name: &str, ctx: &mut Ctx) -> bool {
         "c04" => c04::run(ctx),
         "c05" => c05::run(ctx),
         "c06" => c06::run(ctx),
+        "c06id" => c06id::run(ctx),
         "c07" => c07::run(ctx),
         "c08" => c08::run(ctx),
         "c09" => c09::run(ctx),
